@@ -34,6 +34,27 @@ type cmpSite struct {
 	rop    token.Token       // the operator under which the path is REFUSED (error / false / non-ACCEPT / continue / break), when the comparison governs such a branch; 0 otherwise
 }
 
+// neverNegative: an unsigned value, a length or capacity (also converted), or a constant >= 0.
+func neverNegative(info *types.Info, e ast.Expr) bool {
+	if isUnsignedExpr(info, e) {
+		return true
+	}
+	if tv, ok := info.Types[e]; ok && tv.Value != nil {
+		if v, ok := constantInt(tv); ok {
+			return v >= 0
+		}
+		return false
+	}
+	x := ast.Unparen(stripConv(info, ast.Unparen(e)))
+	if call, ok := x.(*ast.CallExpr); ok {
+		if id, ok := call.Fun.(*ast.Ident); ok && (id.Name == "len" || id.Name == "cap") {
+			_, isB := info.ObjectOf(id).(*types.Builtin)
+			return isB
+		}
+	}
+	return false
+}
+
 func isUnsignedExpr(info *types.Info, e ast.Expr) bool {
 	t := info.TypeOf(e)
 	if t == nil {
@@ -206,7 +227,7 @@ func cmpsIn(pk *packages.Package, fd *ast.FuncDecl, fn string, subst map[types.O
 		}
 		site := cmpSite{fn: fn, pos: be.Pos(), op: be.Op, p: polyAdd(l, r, -1), text: types.ExprString(be), lt: info.TypeOf(be.X), pa: polyAdd(la, ra, -1), pr: pr, pra: pra, uses: uses, full: countingLoop(info, fparents, be), rop: refusalOp(info, fd, fparents, be)}
 		// an unsigned value tested against the bottom of its range: u < 1, u <= 0 are u == 0; u > 0, u >= 1 are u != 0
-		if isUnsignedExpr(info, be.X) && isUnsignedExpr(info, be.Y) {
+		if neverNegative(info, be.X) && neverNegative(info, be.Y) {
 			if nop, k, sign, ok := unsignedZeroTest(site.p, site.op); ok {
 				shift := func(q Poly) Poly {
 					q = polyAdd(q, polyConst(k), -1)
@@ -579,7 +600,17 @@ func ruleCmpSpec(c *Ctx) {
 			n := 0
 			var first token.Pos
 			for _, s := range sites {
-				if nt := namedOf(s.lt); nt != nil && nt.Obj().Name() == cs.typ && s.op.String() == cs.op {
+				// the operator under which the governed code runs: `!(a == b)` and `if a == b { continue }` are a != b
+				eff := s.op
+				if s.op == token.EQL || s.op == token.NEQ {
+					flip := map[token.Token]token.Token{token.EQL: token.NEQ, token.NEQ: token.EQL}
+					if s.negc {
+						eff = flip[eff]
+					} else if s.op == token.EQL && len(s.tn) == 0 && len(s.en) > 0 {
+						eff = token.NEQ // nothing is done when they are equal, the work is on the other side
+					}
+				}
+				if nt := namedOf(s.lt); nt != nil && nt.Obj().Name() == cs.typ && eff.String() == cs.op {
 					n++
 					if first == token.NoPos {
 						first = s.pos
@@ -793,6 +824,7 @@ func ruleCmpSpec(c *Ctx) {
 		got := map[string]int{}
 		perOrigin := map[string]map[string]int{}
 		gotText := map[string]string{}
+		originSeen := map[string]bool{}
 		for _, s := range matched {
 			p := s.p
 			op := s.op
@@ -818,7 +850,12 @@ func ruleCmpSpec(c *Ctx) {
 			if perOrigin[sg] == nil {
 				perOrigin[sg] = map[string]int{}
 			}
-			perOrigin[sg][s.from]++
+			// instantiations of one comparison written once in a helper (the helper called for the previous and for the
+			// current epoch) are one comparison of that origin
+			if s.from == "" || !originSeen[sg+"|"+s.from+"|"+fmt.Sprint(s.pos)] {
+				perOrigin[sg][s.from]++
+			}
+			originSeen[sg+"|"+s.from+"|"+fmt.Sprint(s.pos)] = true
 		}
 		bad := false
 		for sg, n := range got {
@@ -1091,6 +1128,7 @@ var cmpAbsHits []token.Pos
 
 func cmpAbsMatch(fn string, entries []cmpSpec, atoms []string, sites []cmpSite, claimed map[token.Pos]bool) (bool, string, token.Pos) {
 	cmpAbsHits = nil
+	allByValue := true
 	used := map[int]int{}
 	var first token.Pos
 	var gotNamed []string
@@ -1112,8 +1150,12 @@ func cmpAbsMatch(fn string, entries []cmpSpec, atoms []string, sites []cmpSite, 
 				// a renamed local (same shape by type, and the same once locals are read through), or the same
 				// comparison with a value moved into / out of a local
 				sameRA := e.ra != "" && canonCutAbs(sites[i].pra, sites[i].op) == e.ra
-				if sameRA || (e.ra == "" && canonCutAbs(sites[i].pa, sites[i].op) == e.abs) || (e.res != "" && canonCut(sites[i].pr, sites[i].op) == e.res) {
+				sameRes := e.res != "" && canonCut(sites[i].pr, sites[i].op) == e.res
+				if sameRA || (e.ra == "" && canonCutAbs(sites[i].pa, sites[i].op) == e.abs) || sameRes {
 					hit = i
+					if !sameRes {
+						allByValue = false
+					}
 					break
 				}
 			}
@@ -1141,6 +1183,11 @@ func cmpAbsMatch(fn string, entries []cmpSpec, atoms []string, sites []cmpSite, 
 	}
 	if viaHelper {
 		// the comparison now lives in a helper with its own parameter names: nothing to compare names against
+		return true, "", first
+	}
+	if allByValue {
+		// every comparison was found by its resolved form (locals read through to the values they hold): it compares
+		// the reviewed values, whatever the locals are called now and whatever else goes by the old names
 		return true, "", first
 	}
 	if sw := stillDeclaredIn(fn, want, gotNamed); len(sw) > 0 {
